@@ -20,6 +20,7 @@ import (
 	"sort"
 	"strconv"
 	"strings"
+	"time"
 	"unicode/utf8"
 
 	"golang.org/x/tools/go/ssa"
@@ -35,6 +36,7 @@ const (
 	kNonNil      // definitely non-nil (pointer / error / interface / func)
 	kTuple       // tuple of values
 	kStruct      // struct value with (partially) known fields
+	kTime        // a known time.Time value (instant + zone), see sccp_time.go
 	kTop
 )
 
@@ -49,6 +51,7 @@ type aval struct {
 	dyn    types.Type     // dynamic type when the value sits in an interface
 	fn     *ssa.Function  // function value
 	alloc  *ssa.Alloc     // identity of the fresh cell a pointer refers to
+	tm     time.Time      // kTime
 }
 
 var (
@@ -112,6 +115,8 @@ func (a aval) String() string {
 			s = append(s, t.String())
 		}
 		return "{" + strings.Join(s, ", ") + "}"
+	case kTime:
+		return "time(" + a.tm.Format(time.RFC3339Nano) + ")"
 	}
 	return "⊤"
 }
@@ -194,6 +199,8 @@ func eq(a, b aval) bool {
 		return eqVals(a.tup, b.tup)
 	case kStruct:
 		return eqVals(a.elems, b.elems)
+	case kTime:
+		return a.n == b.n && a.tm.Equal(b.tm) && a.tm.Format(time.RFC3339Nano) == b.tm.Format(time.RFC3339Nano)
 	}
 	return true
 }
@@ -344,6 +351,7 @@ type analyzer struct {
 	stack      []*ssa.Function
 	allowRecursion bool // bounded by maxDepth (structural recursion over a finite chain)
 	cellValue  func(*ssa.Alloc) (aval, bool) // current content of a non-escaping local cell of the activation being analysed
+	globalMaps map[string]map[string]aval // constant package-level maps with string keys ("pkg.name" -> key -> value)
 	snapshots  bool                   // returned pointers to fresh allocations carry a snapshot of the pointee (ptrOf)
 	regex      map[*ssa.Global]string // package-level regexps with a constant pattern (load gives "regexp:<pattern>")
 }
@@ -694,6 +702,10 @@ func (an *analyzer) run(fn *ssa.Function, params []aval, free []aval, depth int)
 						nv = top
 						break
 					}
+					if v, ok := an.globalMapLookup(a, i, x); ok {
+						nv = v
+						break
+					}
 					if x.CommaOk {
 						nv = aval{k: kTuple, tup: []aval{top, top}}
 					} else {
@@ -967,6 +979,9 @@ func (an *analyzer) load(x *ssa.UnOp, a aval, mem map[*ssa.Alloc][]aval, escapes
 		if pat, ok := an.regex[g]; ok {
 			return nonnil("regexp:" + pat)
 		}
+		if g.Pkg.Pkg.Path() == "time" && g.Name() == "UTC" {
+			return nonnil("tzloc:UTC|0")
+		}
 		return aval{k: kTop, notes: []string{"global:" + g.Pkg.Pkg.Name() + "." + g.Name()}}
 	}
 	return top
@@ -1234,6 +1249,9 @@ func (an *analyzer) call(x *ssa.Call, get func(ssa.Value) aval, depth int, res *
 		return v
 	}
 	if v, ok := getterModel(sc, args); ok {
+		return v
+	}
+	if v, ok := timeModel(sc, c, args); ok {
 		return v
 	}
 	if v, ok := libModel(sc, c, args, x); ok {
